@@ -27,8 +27,15 @@ func H07_envcheck() {
 		probed++
 		return args[0]
 	}))
+	// mutation 9 compiles against a hand-built type in which one type object
+	// stands at two positions: {from: Tx, to: Tx}
+	mut := sv.Choice("mutation", 10)
+	xt := tx
+	if mut == 9 {
+		xt = types.Obj([]types.Field{{Name: "from", Val: tx}, {Name: "to", Val: tx}})
+	}
 	tenv := types.NewEnv()
-	tenv.Put("x", tx)
+	tenv.Put("x", xt)
 	tenv.Put("y", types.Num)
 	c, err := e.Compile("probe(x)", tenv)
 	sv.Assert("compiles", err == nil)
@@ -37,7 +44,6 @@ func H07_envcheck() {
 	hx.ConcreteTimes = true
 	hx.NumPool = []float64{1, 2.5}
 	hx.MaxLenQuick = 2
-	mut := sv.Choice("mutation", 9)
 	venv := val.NewEnv()
 	var xval *val.Val
 	conforms := true
@@ -71,6 +77,13 @@ func H07_envcheck() {
 		venv.Put("Y", val.Num(1))
 		venv.Put("yy", val.Num(2))
 		conforms = false
+	case 9: // the first position conforms, the second holds a value of another catalogue type
+		other := hx.Catalogue((kx + 1 + sv.Choice("other", n-1)) % n)
+		ot := types.Obj([]types.Field{{Name: "from", Val: hx.Permuted(tx, "perm")}, {Name: "to", Val: other}})
+		xval = val.Obj(ot.Obj())
+		xval.Obj().V[0] = hx.AnyVal(tx, "x.from")
+		xval.Obj().V[1] = hx.AnyVal(other, "x.to")
+		conforms = hx.RefTypeEq(tx, other)
 	}
 	hx.NumPool = nil
 	if xval != nil {
